@@ -1176,7 +1176,7 @@ class VectorQuantize(Module):
         # if returning cross entropy loss on codes that were passed in
 
         if return_loss:
-            return quantize, calculate_ce_loss(indices)
+            ce_loss = calculate_ce_loss(indices)
 
         # transform embedding indices
 
@@ -1298,6 +1298,11 @@ class VectorQuantize(Module):
                 embed_ind,
                 -1
             )
+
+        # if returning cross entropy loss on codes that were passed in, the quantized output has gone through the same head merge, projection and layout as always
+
+        if return_loss:
+            return quantize, ce_loss
 
         if not return_loss_breakdown:
             return quantize, embed_ind, loss
